@@ -85,7 +85,8 @@ class MatchLowering:
             binds: dict = {}
             cname = u(pat.cls).split(".")[-1]
             if pat.patterns:
-                if cname in BUILTIN_SELF_MATCH:
+                margs0 = self.resolve_class(pat.cls) if (self.resolve_class and cname not in BUILTIN_SELF_MATCH) else None
+                if cname in BUILTIN_SELF_MATCH or margs0 == "self":
                     if len(pat.patterns) != 1:
                         raise NoCanon("builtin class pattern arity")
                     t, b = self.pattern(pat.patterns[0], subj)
@@ -93,7 +94,7 @@ class MatchLowering:
                         tests.append(t)
                     binds.update(b)
                 else:
-                    margs = self.resolve_class(pat.cls) if self.resolve_class else None
+                    margs = margs0
                     if margs is None or len(margs) < len(pat.patterns):
                         raise NoCanon(f"__match_args__ of {u(pat.cls)} unknown")
                     for name, p in zip(margs, pat.patterns):
@@ -136,6 +137,7 @@ class MatchLowering:
             test, binds = self.pattern(c.pattern, subj)
             body = c.body
             guard = c.guard
+            binds = {k: v for k, v in binds.items() if not (isinstance(v, ast.Name) and v.id == k)}      # `case int(x)` on subject x
             if binds:
                 assigned = norm._assigned_names(body)
                 if any(k in assigned for k in binds):
@@ -935,7 +937,31 @@ class Canon:
 
     # ---- class knowledge for match lowering
     def _match_args(self, module):
+        def alias_of_builtin(cls_expr):
+            # PortOffset = int  (possibly imported): a class pattern on it matches the subject itself
+            name = u(cls_expr).split(".")[-1]
+            seen = 0
+            mod = module
+            while seen < 4:
+                seen += 1
+                if name in mod.assigns and isinstance(mod.assigns[name], ast.Name):
+                    tgt = mod.assigns[name].id
+                    if tgt in BUILTIN_SELF_MATCH:
+                        return True
+                    name = tgt
+                    continue
+                if name in mod.imports:
+                    dotted = mod.imports[name]
+                    mn, _, nm = dotted.rpartition(".")
+                    if mn in self.prog.modules:
+                        mod, name = self.prog.modules[mn], nm
+                        continue
+                return False
+            return False
+
         def resolve(cls_expr):
+            if alias_of_builtin(cls_expr):
+                return "self"
             try:
                 r = module.resolve(cls_expr)
             except Exception:
